@@ -232,6 +232,45 @@ def hullOK (fg v : List Pt) : Bool :=
    | some a, some z => v.contains a && v.contains z
    | _, _ => true)
 
+/-! ## `fill_polygon` / `fill_convexhull` (`polygon.py`) -/
+
+/-- crossing abscissae of scan line `y` with the closed polygon (`nodes` of `fill_polygon`), in
+    the float arithmetic of the Python code: `p[1] + (y-p[0])/(pj[0]-p[0])*(pj[1]-p[1])` -/
+def rowNodes (poly : List (Float × Float)) (y : Float) : List Float :=
+  match poly.getLast? with
+  | none => []
+  | some last =>
+    (poly.zip (last :: poly)).filterMap fun (p, pj) =>
+      if (p.1 < y && pj.1 >= y) || (pj.1 < y && p.1 >= y) then
+        some (p.2 + (y - p.1) / (pj.1 - p.1) * (pj.2 - p.2))
+      else none
+
+/-- `zip(nodes[::2], nodes[1::2])` -/
+def pairUp : List Float → List (Float × Float)
+  | a :: b :: rest => (a, b) :: pairUp rest
+  | _ => []
+
+/-- `int(v)` for the non-negative abscissae that occur -/
+def truncNat (v : Float) : Nat := v.floor.toUInt64.toNat
+
+/-- pixel `(y, x)` is painted by `fill_polygon(poly, canvas)` on a canvas with `rows` rows -/
+def polyFilled (rows : Nat) (poly : List Pt) (y x : Int) : Bool :=
+  match poly with
+  | [] => false
+  | p0 :: _ =>
+    let minY := poly.foldl (fun m p => min m p.1) p0.1
+    let maxY := poly.foldl (fun m p => max m p.1) p0.1
+    let maxY := if maxY < (rows : Int) then maxY + 1 else maxY
+    decide (minY ≤ y) && decide (y < maxY) && decide (0 ≤ x) &&
+      (pairUp ((rowNodes (poly.map fun p => (Float.ofInt p.1, Float.ofInt p.2)) (Float.ofInt y)).mergeSort
+          fun a b => a ≤ b)).any fun (n, nn) =>
+        decide ((truncNat n : Int) ≤ x) && decide (x < (truncNat (nn + 1) : Int))
+
+/-- `fill_convexhull(bwimg)` for a boolean image: the filled hull polygon, then `canvas[bwimg] = 1` -/
+def fillHullModel (b : Bin) : Bin :=
+  let poly := hullModel b
+  Bin.tabulate b.rows b.cols fun y x => polyFilled b.rows poly y x || b.get y x
+
 /-! ## driver entry -/
 
 def flatPts (v : List Pt) : List Int := v.flatMap fun p => [p.1, p.2]
@@ -263,7 +302,7 @@ def handle (a : Args) : String :=
   | "hull" =>
     let fg := foreground b
     let m := grahamModel fg
-    let base := s!"model={showInts (flatPts m)} modelok={if hullOK fg m then 1 else 0}"
+    let base := s!"model={showInts (flatPts m)} modelok={if hullOK fg m then 1 else 0} fill={showInts (fillHullModel b).toInts}"
     if a.has "got" then
       base ++ s!" ok={if hullOK fg (unflatPts (a.ints "got")) then 1 else 0}"
     else base
